@@ -8,7 +8,7 @@ import json
 import vlib
 
 # ---- tier constants -------------------------------------------------------------------------
-K_MODEL = {"quick": dict(MaxN=3, Coords="{0, 1, 2}", Dim=2, NMeth=5), "thorough": dict(MaxN=4, Coords="{0, 1, 2}", Dim=2, NMeth=3)}
+K_MODEL = {"quick": dict(MaxN=3, Coords="{0, 1, 2}", Dim=2, NMeth=5), "thorough": dict(MaxN=4, Coords="{0, 1, 2}", Dim=2, NMeth=5)}
 K_GEN = {"quick": dict(MaxN2=4, MaxN1=4, MaxN3=3, Stride=3), "thorough": dict(MaxN2=5, MaxN1=5, MaxN3=4, Stride=2)}
 K_INVS = ["InvSym", "InvGaussDiag", "InvGaussRange", "InvGaussMono", "InvGaussPSD", "InvLinearPSD", "InvPolyLinear",
           "InvPatFull", "InvPatMin", "InvPatUnique", "InvPatOneSided", "InvPatKPlus", "InvViews"]
@@ -126,7 +126,7 @@ def run(ctx):
     # (B) cases
     kcases = vlib.tlc_gen(ctx, "Gen_KernelMat", {"constants": K_GEN[ctx.tier], "invariants": ["Emit"]})
     hcases = vlib.tlc_gen(ctx, "Gen_HierClust", {"constants": H_GEN[ctx.tier], "invariants": ["Emit"]})
-    ctx.exhaustive = not ctx.quick
+    ctx.exhaustive = False      # the largest sizes are hash-sampled; the complete sub-domains are stated in ctx.extra
     if not ctx.quick:
         kcases += random_kernel_cases(ctx, 600)
         hcases += random_hier_cases(ctx, 500)
@@ -143,7 +143,11 @@ def run(ctx):
                 + [t for t in htr if t["inp"]["src"] == "expmat" and len(t["inp"]["dk"]) == 3 and t["inp"]["link"] == "complete"][40:41])
     vlib.validate_with_findings(ctx, "Trace_KernelMat", ktr, constants=K_TRACE_CONST, chunk=3000, tag="Trace_KernelMat")
     vlib.validate_with_findings(ctx, "Trace_HierClust", htr, constants=H_TRACE_CONST, chunk=3000, tag="Trace_HierClust")
-    ctx.extra = {"kernel_cases": len(ktr), "hier_cases": len(htr),
+    ctx.extra = {"complete_subdomain": ("kernels: every point multiset with n <= 3 x every k; clusterings: every dissimilarity matrix with n <= 3 x 7 linkages"
+                                        if ctx.quick else
+                                        "kernels: every point multiset with n <= 4 x every k; clusterings: every dissimilarity matrix with n <= 4 "
+                                        "x {single, complete, average, weighted}"),
+                 "kernel_cases": len(ktr), "hier_cases": len(htr),
                  "hier_events": sum(len(t["ev"]) for t in htr), "kernel_events": sum(len(t["ev"]) for t in ktr)}
     ctx.rule = ("kernel cases = every multiset of 2..N lattice points ({0,1,2}^2, {-2..2}^1, {0,1}^3; sorted or reversed) x every k in 0..n-1 "
                 "(0 = dense) with a hashed kernel method (linear / 3 polynomial / 4 Gaussian bandwidths), each built through 9 calling "
